@@ -297,6 +297,7 @@ func trustedBase() []string {
 		"T4 append allocates; no aliasing through spare capacity",
 		"T5 error chains finite and acyclic; termination not proved",
 		"T6 foreign (non-library) error methods are pure, deterministic, do not panic",
+		"T13 interface values never hold typed-nil pointers",
 		"T7 extern axioms/contracts in spec/prelude.spec and extras.go (strings, fmt, reflect, redact, protobuf Any, runtime.Callers)",
 	}
 }
